@@ -203,6 +203,8 @@ static void parse_ops(actor *a, char *s)
         op_t *o = &a->ops[a->nops++];
         memset(o, 0, sizeof(*o));
         o->code = code;
+        for (int k = 0; k < 4; k++)
+            o->a[k] = -1;
         for (int k = 0; k < 4; k++) {
             char *arg = strtok_r(NULL, " \t\n", &save2);
             if (!arg)
@@ -222,8 +224,12 @@ static void parse_case(char *text)
     G.drain = 1;
     G.main_a.kind = A_MAIN;
     G.main_a.skip_mutex = -1;
-    for (int i = 0; i < MAXU; i++)
+    for (int i = 0; i < MAXU; i++) {
         G.unit[i].skip_mutex = -1;
+        G.unit[i].expect_pool = G.unit[i].cur_pool = -1;
+    }
+    for (int i = 0; i < MAXP; i++)
+        G.pool[i].sub = -1;
     for (int i = 0; i < MAXEXT; i++)
         G.ext[i].skip_mutex = -1;
     g_nenv = 0;
@@ -255,6 +261,7 @@ static void parse_case(char *text)
             G.spin = (unsigned)kv(line, "spin", 40);
             G.mode = (int)kv(line, "mode", 0);
             G.drain = (int)kv(line, "drain", 1);
+            G.tick = (uint64_t)kv(line, "tick", 1);
         } else if (!strncmp(line, "env", 3)) {
             char *p = line + 3;
             while (*p == ' ')
@@ -277,6 +284,21 @@ static void parse_case(char *text)
             G.pool[i].policy = (int)kv(line, "policy", 0);
             if (i >= G.npool)
                 G.npool = i + 1;
+        } else if (!strncmp(line, "sub", 3)) {
+            int i = (int)strtol(line + 3, NULL, 10);
+            if (i < 0 || i >= MAXX)
+                generr("bad sub index");
+            G.sub[i].sched = lookup(kvs(line, "sched", tmp, sizeof tmp), scheds);
+            if (G.sub[i].sched < 1)
+                generr("bad sub sched: %s", line);
+            char pl[64];
+            kvs(line, "pools", pl, sizeof pl);
+            G.sub[i].npools = 0;
+            char *sv;
+            for (char *t = strtok_r(pl, ",", &sv); t; t = strtok_r(NULL, ",", &sv))
+                G.sub[i].pools[G.sub[i].npools++] = atoi(t);
+            if (i >= G.nsub)
+                G.nsub = i + 1;
         } else if (!strncmp(line, "xs", 2)) {
             int i = (int)strtol(line + 2, NULL, 10);
             if (i < 0 || i >= MAXX)
@@ -396,6 +418,7 @@ static void run_case(void)
         c.pct_len = G.pct_len;
         c.step_limit = G.step_limit;
         c.spin_thresh = G.spin;
+        c.tick_ns = G.tick;
         ds_begin(&c);
     }
     if (G.mode != 0)
